@@ -44,7 +44,8 @@ META = {
         "drivers over the abstract state (is_converged, is_diverged) with check_convergence as a nondeterministic "
         "writer and branch tests evaluated in three-valued logic: every normal exit must have called exactly one of "
         "after_nonlinear_convergence / after_nonlinear_failure, matching the returned value, and the convergence hook is "
-        "only reachable after after_nonlinear_iteration; each distinct (verdict, hooks called, returned value) is one "
+        "only reachable after after_nonlinear_iteration; a verdict flag assigned in a nested function must be `nonlocal` "
+        "(or returned and re-bound by the caller) whenever the driver reads it - a local shadow is a finding; each distinct (verdict, hooks called, returned value) is one "
         "obligation. The verdict (True, True) of NewtonSolver.solve reaches `return True` with no hook (D11, known "
         "finding); every other offending abstract path is a violation. R2 checks, on the statement CFG of the four "
         "SolutionStrategy hooks with arguments resolved against the real signatures of EquationSystem.set/get_variable_"
@@ -67,7 +68,7 @@ META = {
     "technique": "abstract-state path exploration (model checking of the CFG over a finite domain) + CFG dominance + "
                  "class-table sweep",
 }
-MIN_INSTANCES = {"R1": 8, "R2": 16, "R3": 3}
+MIN_INSTANCES = {"R1": 10, "R2": 16, "R3": 3}
 
 
 # ------------------------------------------------------------------ generic helpers
@@ -355,16 +356,38 @@ class _Driver:
         self.flags = flags
         # effect summaries of nested functions
         self.nested_effect: dict[str, dict] = {}
+        # names the outer function itself reads (loop test, branches, return value)
+        outer_reads = {n.id for n in walk_local(fn) if isinstance(n, ast.Name) and isinstance(n.ctx, ast.Load)}
+        # (nested function, flag, assignment, bound to the outer variable?) - one R1 obligation each
+        self.flag_bindings: list[tuple[str, str, ast.stmt, bool]] = []
         for name, f in self.nested.items():
             nonlocal_names = {n for s in walk_local(f) if isinstance(s, ast.Nonlocal) for n in s.names}
+            if any(isinstance(s, ast.Global) for s in walk_local(f)):
+                raise Undecided(f"{where}: nested {name} uses `global`")
+            # call sites `a, b = name()` re-bind the returned values in the caller
+            rebound: Optional[set] = None
+            for st in walk_local(fn):
+                if isinstance(st, ast.stmt):
+                    for c in [x for r in _header_roots(st) for x in walk_local(r) if isinstance(x, ast.Call)
+                              and isinstance(x.func, ast.Name) and x.func.id == name]:
+                        tg = {t.id for t in assigned_targets(st) if isinstance(t, ast.Name)} if isinstance(st, ast.Assign) and st.value is c else set()
+                        rebound = tg if rebound is None else (rebound & tg)
             writes = set()
+            seen_flag = set()
             for s in walk_local(f):
                 if isinstance(s, ast.stmt) and s is not f:
                     for t in assigned_targets(s):
                         if isinstance(t, ast.Name) and t.id in flags:
-                            if t.id not in nonlocal_names:
-                                raise Undecided(f"{where}: nested {name} assigns `{t.id}` without nonlocal (a local shadow)")
-                            writes.add(t.id)
+                            if t.id in nonlocal_names:
+                                writes.add(t.id)
+                                bound = True
+                            else:
+                                # a local shadow: the outer variable is NOT written by this assignment.  Harmless only if
+                                # the outer function never reads that name or re-binds it from the call's return value.
+                                bound = t.id not in outer_reads or t.id in (rebound or set())
+                            if t.id not in seen_flag:
+                                seen_flag.add(t.id)
+                                self.flag_bindings.append((name, t.id, s, bound))
             calls = [c for c in walk_local(f) if isinstance(c, ast.Call)]
             if any(_hook_call(c, H_CONV) or _hook_call(c, H_FAIL) for c in calls):
                 raise Undecided(f"{where}: nested function {name} calls a convergence/failure hook")
@@ -431,7 +454,12 @@ class _Driver:
                                     and len(assigned_targets(st)) == 1 else None
                                 choices = (val,) if val is not None else (False, True)
                                 fvs = [x[:i] + (b,) + x[i + 1:] for x in fvs for b in choices]
-                        outs = [(x, nc, nf, it, verdict, None) for x in fvs]
+                        vd = verdict
+                        if isinstance(st, ast.Assign) and isinstance(st.value, ast.Call) and isinstance(st.value.func, ast.Name) \
+                                and st.value.func.id in self.nested and len(fvs) > 1:
+                            outs = [(x, nc, nf, it, self._verdict(x), None) for x in fvs]
+                        else:
+                            outs = [(x, nc, nf, it, vd, None) for x in fvs]
                 if not outs:
                     outs = [(fv, nc, nf, it, verdict, None)]
             for fv2, nc2, nf2, it2, vd2, filt in outs:
@@ -475,6 +503,15 @@ def _rule_driver(ctx: Ctx, rel: str, qual: str) -> None:
                   construct=cons, facts={"verdict": verdict, "n_convergence_hook": nc, "n_failure_hook": nf, "returns": str(ret)},
                   desc=f"exit path [{cons}] calls exactly the hook that matches the returned value")
         ctx.sample({"rule": "R1", "driver": qual, "path": cons, "ok": ok})
+    for nname, flag, stmt, bound in d.flag_bindings:
+        ctx.check("R1", bound, mod, f"{qual}.{nname}", stmt,
+                  f"`{flag}` is assigned inside the nested function {nname}() without `nonlocal {flag}` (and is not returned "
+                  f"and re-bound by the caller), but the loop / post-loop code of {qual.split('.')[-1]} reads `{flag}`: the "
+                  "assignment creates a local shadow, the verdict of check_convergence never reaches the driver, so e.g. a "
+                  "reported divergence is ignored and the step can be accepted later",
+                  construct=f"{nname}: verdict flag `{flag}` bound to the driver's variable",
+                  facts={"flag": flag, "nested": nname},
+                  desc=f"verdict flag `{flag}` written in {nname}() is the driver's variable (nonlocal / re-bound)")
     for node, bad in sorted(conv_without_iter.items()):
         ctx.check("R1", not bad, mod, qual, d.g.stmt[node],
                   f"{H_CONV} is reachable before any {H_ITER}: the iterate that is stored as the new time-step solution "
@@ -810,6 +847,8 @@ MUTANTS = [
     _m("convergence-checked-before-iterate-update", NEWTON,
        "            model.after_nonlinear_iteration(nonlinear_increment)\n\n            if (\n",
        "            if (\n", "R1"),
+    _m("seed-nonlocal-is-diverged-dropped", NEWTON, "            nonlocal is_diverged\n", "", "R1"),
+    _m("nonlocal-is-converged-dropped", NEWTON, "            nonlocal is_converged\n", "", "R1"),
     _m("failure-hook-called-twice-on-divergence", NEWTON,
        "                    # Handle nonlinear divergence outside the loop.\n                    break\n",
        "                    model.after_nonlinear_failure()\n                    break\n", "R1"),
